@@ -921,6 +921,18 @@ def body_sweep_cases():
     for cs in CODEC_NAMES + ["unicode-escape", "raw-unicode-escape", "UTF-7", "utf-16-le", "utf-16-be", "utf-32-be", "utf-8-sig", "cp65001", "iso-2022-jp", "euc-kr", "gb18030", "cp1252", "koi8-r", "mac-roman", "U8", "L1", "646"]:
         pairs += [(f"multipart/form-data; boundary=b; charset={cs}", CHARSET_MULTIPART), (f"application/json; charset={cs}", b'{"\\udfff": "\\ud800 +2AA- \\x00 \xff"}'), (f"application/json; charset={cs}", b"+ACIAIg-"),
                   (f"application/x-www-form-urlencoded; charset={cs}", b"a=%ff&+2AA-=+2AA-&\\ud800=\\udfff&\xff=\xfe&c=+AGE")]
+    # every codec the interpreter ships (module names of the encodings package, which are accepted as charset names) with bodies that are
+    # plain ASCII - so that the body passes a strict decode under most of them and the later steps (percent-decoding in the declared
+    # charset, JSON parsing, part-header decoding) run under that codec
+    import encodings
+    import pkgutil
+
+    shipped = sorted(m.name for m in pkgutil.iter_modules(encodings.__path__) if m.name != "aliases")
+    ascii_mp = _CD + b'name="a"\r\n\r\nv%41\r\n' + _CD + b'name="f"; filename="f%41.txt"\r\nContent-Type: text/plain\r\n\r\nDATA\r\n--b--'
+    for cs in shipped + ["IDNA", "Punycode", "rot-13", "utf-16-le"]:
+        pairs += [(f"application/x-www-form-urlencoded; charset={cs}", b"a=%41"), (f"application/x-www-form-urlencoded; charset={cs}", b"a=%ff&b=c+d&%E4%B8%AD=%80&x"),
+                  (f"application/x-www-form-urlencoded; charset={cs}", b"plain=ascii&b=2"), (f"application/json; charset={cs}", b'{"a": ["b", 1]}'),
+                  (f"multipart/form-data; boundary=b; charset={cs}", ascii_mp)]
     for ctype, body in pairs:
         for chunks in ([body], [body[: len(body) // 2], body[len(body) // 2:]]):
             rq = gw.areq(method="POST", headers=[["Content-Type", ctype]], body=chunks, query=b"", path_bytes=b"/", path="/")
